@@ -162,9 +162,11 @@ fn subject(seed: u64, names: &[String]) -> (spec::ConfigSpec, spec::StateSpec, V
     let mut ctx = gen::GenCtx::new(names);
     ctx.exclude = names
         .iter()
-        .filter(|n| n.contains("RAND") || n.starts_with("GRAPH.") || n.as_str() == "EXEC.CMD")
+        .filter(|n| n.contains("RAND") || n.starts_with("GRAPH."))
         .cloned()
         .collect();
+    // (EXEC.CMD stays in: the seam spawns nothing, and its simulated sleep is a scheduling point, so
+    // two interpreters can be inside EXEC.CMD at the same time)
     // keep allocation-sized operands small: no envelope wrapper here
     ctx.exclude.extend(
         ["BOOLVECTOR.ONES", "BOOLVECTOR.ZEROS", "INTVECTOR.ONES", "INTVECTOR.ZEROS", "FLOATVECTOR.ONES", "FLOATVECTOR.ZEROS", "FLOATVECTOR.SINE",
@@ -182,7 +184,19 @@ fn subject(seed: u64, names: &[String]) -> (spec::ConfigSpec, spec::StateSpec, V
         }
     }
     let b = 5 + r.below(25) as usize;
-    let prog = vec![ctx.tree(&mut r, b, 3)];
+    let mut prog = vec![ctx.tree(&mut r, b, 3)];
+    if r.chance(1, 2) {
+        // a shell-out with 0..2 arguments somewhere in the subject
+        let n = r.below(3) as i32;
+        let mut v = vec![];
+        for k in 0..=n {
+            v.push(spec::ISpec::N(format!("cmd{}", k)));
+        }
+        v.push(spec::ISpec::Int(n));
+        v.push(spec::ISpec::I("EXEC.CMD".to_string()));
+        v.push(spec::ISpec::Int(7));
+        prog.insert(0, spec::ISpec::L(v));
+    }
     (cfg, state, prog)
 }
 
@@ -230,6 +244,9 @@ fn scenario_isolation(sc: &Scenario) {
                     v.push(Item::instruction("BOOLEAN.RAND".into()));
                     v.push(Item::name(format!("n{}", k)));
                     v.push(Item::instruction("INTEGER.DEFINE".into()));
+                    v.push(Item::name("noisecmd".into()));
+                    v.push(Item::int(0));
+                    v.push(Item::instruction("EXEC.CMD".into()));
                 }
                 v.reverse();
                 st.exec_stack.push(Item::list(v));
